@@ -969,5 +969,14 @@ theorem fragAt_size_eq (m pe : Nat) (pdata : Bytes) (p : Primary) (bs : List Blk
   simp only [fragAt, budget] at *
   omega
 
+/-! ### a CL sender that raises -/
+
+theorem runIdle_handed (cfg : Cfg) (mtu : Option Nat) (fail : Nat → Bool) :
+    ∀ (fs : List FBundle) (i : Nat), (runIdle cfg mtu fail i fs).1 = fs.flatMap (resend cfg mtu) := by
+  intro fs
+  induction fs with
+  | nil => intro i; rfl
+  | cons f fs ih => intro i; simp only [runIdle, List.flatMap_cons, ih]
+
 end Frag
 end DtnVerif
